@@ -160,12 +160,12 @@ class LangGen:
             docs.append(self.root(top))
         return docs
 
-    def attr_value(self, row, shared):
+    def attr_value(self, row, shared, forced=None):
         name, val, page, tok = row
         base = val or ""
         if self.lid == 1301 and name in ("created", "si-expires") or self.lid == 1701 and name == "timestamp":
             return self.rng.choice(DATETIMES)
-        r = self.rng.below(7)
+        r = self.rng.below(7) if forced is None else forced
         if r == 0:
             return base if base else "v"
         if r == 1:
@@ -187,7 +187,12 @@ class LangGen:
         rows = [r for r in self.attrs if ":" not in r[0]]
         docs, top, cur, used = [], [], None, set()
         ti = 0
-        for i, row in enumerate(rows):
+        plan = []
+        for row in rows:
+            plan.append((row, 0))          # the exact pair of the row
+            plan.append((row, 1))          # the row's value followed by a remainder
+            plan.append((row, None))       # a random form
+        for i, (row, forced) in enumerate(plan):
             if cur is None or row[0] in used or len(cur.attrs) >= 3:
                 if cur is not None:
                     top.append(cur)
@@ -198,17 +203,19 @@ class LangGen:
                 ti += 1
                 cur = self.elt(t, [self.unique_text()] if self.rng.chance(1, 3) and not (t[3] & 1) and self.lid not in (2301, 2302) else [])
                 used = set()
-            cur.attrs.append((row[0], self.attr_value(row, shared)))
+            cur.attrs.append((row[0], self.attr_value(row, shared, forced)))
             used.add(row[0])
         if cur is not None:
             top.append(cur)
+        if self.lid == 1901:
+            top.append(E("PARM", None, [("NAME", "ICON"), ("VALUE", ICON)], []))
+            top.append(E("PARM", None, [("NAME", "NAME"), ("VALUE", ICON)], []))
+        docs.append(self.root(top))
+        top = []
         # literal attribute, literal element, repeated attribute values
         t = self.tags[0]
         top.append(self.elt(t, [], [("zzunknown", shared[0]), ("zzother", shared[0])]))
         top.append(E("zzliteral", None, [("zzunknown", "plain value")], [E("zzliteral", None, [], ["in a literal"])]))
-        if self.lid == 1901:
-            top.append(E("PARM", None, [("NAME", "ICON"), ("VALUE", ICON)], []))
-            top.append(E("PARM", None, [("NAME", "NAME"), ("VALUE", ICON)], []))
         docs.append(self.root(top))
         return docs
 
@@ -248,7 +255,7 @@ def documents(tj, rng, quick=True):
         for k, d in enumerate(g.tag_docs(per, pool, style)):
             indent = [None, 1, 2, None][(k + style) % 4]
             out.append((lang["id"], "tags", (hdr + render(d, indent, rootdecl=g.rootdecl)).encode("utf-8"), False))
-        for k, d in enumerate(g.attr_docs(12, ["shared_attr_value", "www.example.org/path"])):
+        for k, d in enumerate(g.attr_docs(30, ["shared_attr_value", "www.example.org/path"])):
             out.append((lang["id"], "attrs", (hdr + render(d, [None, 2][k % 2], rootdecl=g.rootdecl)).encode("utf-8"), False))
         for d in g.text_docs(False, True):
             out.append((lang["id"], "text-literal", (hdr + render(d, None, rootdecl=g.rootdecl)).encode("utf-8"), False))
